@@ -201,20 +201,19 @@ def probeParams (defaults syms : List String) (aliases : List (String × String)
 
 -- the 2×2 matrix type `M2` and its operations live in Model/AberrationBase.lean (the generated file uses them too)
 
-/-- `_passively_rotate_grid` -/
+/-- `_passively_rotate_grid` (translated) -/
 def rotateGrid (kx ky theta : R) : R × R :=
-  let ca := Num.cos (-theta)
-  let sa := Num.sin (-theta)
-  (kx * ca + ky * sa, -kx * sa + ky * ca)
+  Generated.Aberration.passively_rotate_grid kx ky theta
 
-/-- `DirectPtychography._return_lateral_shifts` at one detector pixel (kx, ky) -/
+/-- `DirectPtychography._return_lateral_shifts` at one detector pixel (kx, ky): grid rotation, polar coordinates and
+Cartesian gradients are the TRANSLATED functions; the glue (`spatial_frequencies(..., rotation_angle)` rotating only
+when an angle is given, `k * self.wavelength`, `dx[bf_mask]`, `/ 2 / np.pi`) is written by hand -/
 def lateralShift (kx ky lam : R) (theta : Option R) (coefs : String → R) : R × R :=
   let k' := match theta with
     | none => (kx, ky)
     | some t => rotateGrid kx ky t
-  let k := Num.sqrt (k'.1 * k'.1 + k'.2 * k'.2)
-  let phi := Num.atan2 k'.2 k'.1
-  let g := Generated.Aberration.aberration_surface_cartesian_gradients (k * lam) phi coefs
+  let kp := Generated.Aberration.polar_coordinates k'.1 k'.2
+  let g := Generated.Aberration.aberration_surface_cartesian_gradients (kp.1 * lam) kp.2 coefs
   (g.1 / Num.two / Num.pi, g.2 / Num.two / Num.pi)
 
 /-- least squares `shifts ≈ basis · M` through the normal equations (2 columns) -/
@@ -240,10 +239,6 @@ def polar2 (m : M2 R) : M2 R × M2 R :=
   let p : M2 R := ⟨(q.a + s) / t, q.b / t, q.c / t, (q.d + s) / t⟩
   (M2.mul m (M2.inv p), p)
 
-/-- Python/torch `remainder(x, y)` for `x ∈ [-y, 2y)` (the only range reached: |x| ≤ 2π) -/
-def rem1 (x y : R) : R :=
-  if Num.ltb x Num.zero then x + y else if Num.leb y x then x - y else x
-
 /-- the extraction part of `fit_aberrations_from_shifts`: (C10, C12, phi12, rotation) -/
 def fitExtract (u p : M2 R) : R × R × R × R :=
   let pi : R := Num.pi
@@ -268,10 +263,22 @@ def fit (basis shifts : List (R × R)) : R × R × R × R :=
   let up := polar2 (lstsq2 basis shifts)
   fitExtract up.1 up.2
 
-/-- the fit with the TRANSLATED `_torch_polar` (Generated/Aberration.lean) on top of an abstract svd routine -/
+/-- the TRANSLATED extraction part of `fit_aberrations_from_shifts`, read back as (C10, C12, phi12, rotation_angle) -/
+def fitExtractTranslated (u p : M2 R) : R × R × R × R :=
+  let d := Generated.Aberration.fit_aberrations_from_shifts_extract u p
+  (Generated.Aberration.lookupD d "C10", Generated.Aberration.lookupD d "C12",
+   Generated.Aberration.lookupD d "phi12", Generated.Aberration.lookupD d "rotation_angle")
+
+/-- the fit with the TRANSLATED `_torch_polar` and the TRANSLATED extraction on top of an abstract svd routine
+(only the least-squares solve and the k-grid plumbing are hand-modelled) -/
 def fitTranslated (svd : M2 R → M2 R × (R × R) × M2 R) (basis shifts : List (R × R)) : R × R × R × R :=
   let up := Generated.Aberration.torch_polar svd (lstsq2 basis shifts)
-  fitExtract up.1 up.2
+  fitExtractTranslated up.1 up.2
+
+/-- executable variant for the driver: closed-form polar factors, translated extraction -/
+def fitDriver (basis shifts : List (R × R)) : R × R × R × R :=
+  let up := polar2 (lstsq2 basis shifts)
+  fitExtractTranslated up.1 up.2
 
 /-- the rotation matrix `R_{-θ}` and the aberration matrix `A` of (C10, C12, φ12):
 `_return_lateral_shifts` produces `shifts = basis · (R_{-θ} · A)` for quadratic aberrations -/
